@@ -111,7 +111,7 @@ class Prov:
             self._closure_sites = m
         return self._closure_sites
 
-    def slice(self, fn, what, follow_closures=True, follow_mut=True, stop_call=None, max_nodes=20000):
+    def slice(self, fn, what, follow_closures=True, follow_mut=False, stop_call=None, max_nodes=20000):
         """what: Operand | Place | int (local).  stop_call(term)->bool: do not look through that call."""
         sl = Slice()
         work = []
